@@ -198,7 +198,7 @@ def run_stream(name, gen_cmd, go_cmd, lean_cmd, workdir, timeout=3000):
             "go_err": eg.decode(errors="replace")[-500:], "lean_err": el.decode(errors="replace")[-500:],
             "secs": time.time() - t0}
 
-def compare_stream(st, flag_re, max_report=20, diff_violation=None):
+def compare_stream(st, flag_re, max_report=20, diff_violation=None, diff_ignore=None):
     """Walk the three files in lockstep. Returns (lines, flagged, diffs, samples, distinct)."""
     flagged, diffs, samples = [], [], []
     n = 0
@@ -217,6 +217,10 @@ def compare_stream(st, flag_re, max_report=20, diff_violation=None):
                     flagged.append({"op": op[:400], "go": g[:400], "lean": l[:400]})
                 else:
                     flagged.append(None)
+            if g != l and diff_ignore and diff_ignore(op, g, l):
+                # the model declares the input outside its domain: only the Go-side oracle applies
+                st["ignored"] = st.get("ignored", 0) + 1
+                l = g
             if g != l and diff_violation and diff_violation(op, g, l):
                 # for this property a disagreement with the reference model is itself the violation
                 if len(flagged) < max_report:
